@@ -16,6 +16,10 @@ State: provider slots, the ideal-AEAD oracle table, the cookies issued so far (b
                                               -> ok <state line> time= | err:Eof | err:Other | panic
   start p= h= key=<hex64> [nofile=1 | same modifiers as load]
                                               -> loaded|fresh <file the provider stores, time field dropped> | abort
+  startfs p= h= umask= layout=plain|missing1|missing2|dir|empty|file644 [b= mode=] key=
+                                              -> loaded|fresh fs=created|overwritten|nofile mode= dirs=- body=
+        (startupAt + storeOutcome + modeAfter: a missing parent directory / a directory at the path => warn only,
+         nothing created; a created file is 600, an existing one keeps its mode)
   race h= reads=                              -> ok   (concurrent readers of the real store loop; not modelled)
 -/
 import NtpVerif.Basic.LineIO
@@ -157,6 +161,29 @@ def stepLine (s : St) (line : String) : St × String :=
         | .fresh p => (s.setProv i p, "fresh " ++ hexOfBytes ((store p 0).getD [] |>.drop 8))
         | .abort => (s, "abort")
     | _, _, _ => (s, "bad-op")
+  | "startfs" :: _ =>
+    let kind? : Option PathKind := match kv? ws "layout" with
+      | some "plain" => some .absent
+      | some "missing1" => some .missingParent
+      | some "missing2" => some .missingParent
+      | some "dir" => some .directory
+      | some "empty" => some .file
+      | some "file644" => some .file
+      | _ => none
+    match kvNat? ws "p", kvNat? ws "h", kvBytes? ws "key", kind? with
+    | some i, some h, some k, some kind =>
+      let content := if (kv? ws "b").isSome then (fileOf s ws).getD [] else []
+      let fsStr := match storeOutcome kind with
+        | .failed => "nofile" | .created => "created" | .overwritten => "overwritten"
+      let modeStr := match modeAfter kind ((kvNat? ws "mode").getD 0) with
+        | none => "-" | some m => toString m
+      let body (p : Provider Bytes) : String :=
+        if storeOutcome kind == .failed then "-" else hexOfBytes ((store p 0).getD [] |>.drop 8)
+      match startupAt kind content h k with
+      | .loaded p _ => (s.setProv i p, s!"loaded fs={fsStr} mode={modeStr} dirs=- body={body p}")
+      | .fresh p => (s.setProv i p, s!"fresh fs={fsStr} mode={modeStr} dirs=- body={body p}")
+      | .abort => (s, "abort")
+    | _, _, _, _ => (s, "bad-op")
   | "race" :: _ => (s, "ok")     -- file-system exercise only (c27_spawn); nothing to model
   | _ => (s, "bad-op")
 
